@@ -38,7 +38,7 @@ def world_installed(world, has_sgio=True, has_iscsi=True):
     saved = (dm.__dict__.get("open", _MISSING), dm.os, dm.sgio if hasattr(dm, "sgio") else _MISSING, dm._has_sgio,
              im.__dict__.get("iscsi", _MISSING), im._has_iscsi, stub_sgio.WORLD, stub_iscsi.WORLD)
     dm.open = world.open
-    dm.os = SimpleNamespace(stat=world.stat)
+    dm.os = FakeOS(world)
     dm.sgio = stub_sgio
     dm._has_sgio = has_sgio
     im.iscsi = stub_iscsi
@@ -70,6 +70,24 @@ def world_installed(world, has_sgio=True, has_iscsi=True):
 
 
 _MISSING = object()
+
+
+class FakeOS:
+    """the os module as seen by scsi_device: stat() answers from the ghost file system, everything else is the
+    real module (so that a harmless use of os.path & co. is not an artefact of the harness)"""
+
+    __pyvc_trusted__ = True
+
+    def __init__(self, world):
+        self._world = world
+
+    def stat(self, path, *a, **k):
+        return self._world.stat(path)
+
+    def __getattr__(self, name):
+        import os as _os
+
+        return getattr(_os, name)
 
 
 def make_command():
